@@ -150,6 +150,48 @@ static void run(const Case &c) {
             o << "]";
         }
         o << "],\"exact\":" << (exact ? "true" : "false");
+        // tree shape, first-vertex labels and cross-tree consistency (independent re-derivation from pred edges)
+        std::vector<std::vector<std::vector<int>>> PV(n, std::vector<std::vector<int>>(n));
+        bool tree_ok = true, first_ok = true;
+        for (int s = 0; s < n; s++) for (int v = 0; v < n; v++) {
+            auto nd = trees[s].node(v);
+            if (!nd) continue;
+            std::vector<int> verts;
+            std::set<int> seen;
+            int cur = v;
+            bool ok = true;
+            while (true) {
+                if (!seen.insert(cur).second) { ok = false; break; }
+                verts.push_back(cur);
+                auto c = trees[s].node(cur);
+                if (!c) { ok = false; break; }
+                if (!c->has_pred()) break;
+                int pe = edge_index(eidx, c->pred());
+                if (pe < 0) { ok = false; break; }
+                int a = t.edges[pe].first, b = t.edges[pe].second;
+                if (a != cur && b != cur) { ok = false; break; }
+                cur = (a == cur) ? b : a;
+            }
+            if (!ok || cur != s) { tree_ok = false; continue; }
+            std::reverse(verts.begin(), verts.end());
+            PV[s][v] = verts;
+            int exp_first = (v == s) ? s : verts[1];
+            if ((int) trees[s].first(v) != exp_first) first_ok = false;
+        }
+        bool rev_ok = true, sub_ok = true;
+        for (int u = 0; u < n; u++) for (int v = 0; v < n; v++) {
+            if (u == v || PV[u][v].empty()) continue;
+            std::vector<int> r = PV[v][u];
+            std::reverse(r.begin(), r.end());
+            if (r != PV[u][v]) rev_ok = false;
+            const auto &P = PV[u][v];
+            for (size_t a = 0; a < P.size(); a++) for (size_t b = a + 1; b < P.size(); b++) {
+                std::vector<int> sub(P.begin() + a, P.begin() + b + 1);
+                if (sub != PV[P[a]][P[b]]) sub_ok = false;
+            }
+        }
+        o << ",\"tree_ok\":" << (tree_ok ? "true" : "false") << ",\"first_ok\":" << (first_ok ? "true" : "false")
+          << ",\"rev_ok\":" << (rev_ok ? "true" : "false") << ",\"sub_ok\":" << (sub_ok ? "true" : "false");
     } else if (what == "coll") {
         std::set<uint64_t> mh, mf, mi;
         coll_one<parmcb::detail::HortonCyclesBuilder<Graph, WeightMap>>("horton", g, wm, t, eidx, w, o, mh);
